@@ -406,6 +406,11 @@ def dispatch(ctx):
                     ctx.bad(R, f, v_, "the working copy of the mapping is built by a filtering comprehension (`%s`): entries that fail the filter (0, False, '', "
                             "empty containers) never reach the constructor, which then uses its defaults" % astq.text(v_)[:90],
                             "every item of the mapping other than the alias key is forwarded as a keyword argument")
+                tr = _transforming_copy(v_, arg)
+                if tr is not None:
+                    ctx.bad(R, f, v_, "the working copy of the mapping is built with its %s rewritten (`%s`): what reaches the constructor is no longer what the "
+                            "mapping says, so the object built from a configuration differs from the one built with the same keyword arguments" % (tr, astq.text(v_)[:90]),
+                            "every item of the mapping other than the alias key is forwarded unchanged as a keyword argument", robust=True)
             bad = [d for d in defs if not _fresh_def(prog, f, d)]
             ctx.check(not bad and defs, R, f, c,
                       "%s.%s(...) acts on a fresh copy (dict(...)) of the caller's mapping" % (name, c.func.attr),
@@ -488,6 +493,37 @@ def dispatch(ctx):
         ctx.check(mut_names == {restname}, R, f, last[0],
                   "the forwarded mapping is the copy the keys were popped from",
                   "keys are popped from %s but %s is forwarded" % (sorted(mut_names), restname))
+
+
+def _transforming_copy(v, arg):
+    """'values' / 'keys' when v copies the mapping `arg` item by item through a comprehension whose key or value expression is
+    not the item's own key / value; None for identity copies and for anything that is not such a copy"""
+    comp = None
+    if isinstance(v, ast.DictComp):
+        comp, kx, vx = v, v.key, v.value
+    elif isinstance(v, ast.Call) and astq.is_name(v.func, "dict") and len(v.args) == 1 and isinstance(v.args[0], (ast.GeneratorExp, ast.ListComp)) \
+            and isinstance(v.args[0].elt, ast.Tuple) and len(v.args[0].elt.elts) == 2:
+        comp, (kx, vx) = v.args[0], v.args[0].elt.elts
+    if comp is None or len(comp.generators) != 1:
+        return None
+    g = comp.generators[0]
+    if not any(isinstance(x, ast.Name) and x.id == arg for x in ast.walk(g.iter)):
+        return None
+    if astq.attr_call(g.iter, "items") and isinstance(g.target, ast.Tuple) and len(g.target.elts) == 2 and all(isinstance(e, ast.Name) for e in g.target.elts):
+        kn, vn = g.target.elts[0].id, g.target.elts[1].id
+        if not astq.is_name(kx, kn):
+            return "keys"
+        if not astq.is_name(vx, vn):
+            return "values"
+        return None
+    if isinstance(g.target, ast.Name):
+        # for k in arg: k -> arg[k]
+        kn = g.target.id
+        if not astq.is_name(kx, kn):
+            return "keys"
+        if not (isinstance(vx, ast.Subscript) and astq.is_name(vx.value, arg) and astq.is_name(vx.slice, kn)):
+            return "values"
+    return None
 
 
 def _fresh_def(prog, f, d):
